@@ -335,9 +335,15 @@ SecondFew(h) == {r \in RepliesOf(h) : \E s \in {"#result-expected", "#result-abs
                                                 "#result-:empty", "#error-err-expected", "#error-err-absent", "#error-err-textonly"} :
                                         r.lab = h.name \o s}
 (* reply scenarios: one shaped reply; for the paging helpers also a good first reply         *)
-(* followed by a shaped second one, or by none (the peer ends the stream instead)            *)
+(* followed by a shaped second one, or by none (the peer ends the stream instead); the       *)
+(* helpers whose reply is routed through a registered handler also with that handler in its  *)
+(* default configuration (cfg "zero", see part 2)                                            *)
+HandlerHelpers == {"muc.Join"}
 ReplyScenarios ==
   UNION {   {[mode |-> "reply", cfg |-> "listen", helper |-> h.name, items |-> <<r>>] : r \in RepliesOf(h)}
+       \cup (IF h.name \in HandlerHelpers
+             THEN {[mode |-> "reply", cfg |-> "zero", helper |-> h.name, items |-> <<r>>] : r \in RepliesOf(h)}
+             ELSE {})
        \cup (IF h.second
              THEN {[mode |-> "reply", cfg |-> "listen", helper |-> h.name, items |-> <<OkReply(h), r>>] :
                       r \in (IF h.name = "ibb.Write" THEN RepliesOf(h) ELSE SecondFew(h))}
@@ -378,24 +384,62 @@ Alphabet2 == UNION {{[lab |-> Lab(tg, tg.types[1], v[1]), fam |-> tg.fam, node |
                        v \in Top2(tg.pl)} : tg \in Targets}
 Labels == {s.lab : s \in Alphabet}
 
-(* the table states of the stateful handlers *)
+(* ----- the configuration of the handler table -----                                     *)
+(* What the application set on the handlers it registered on the multiplexer:              *)
+(*  "listen"    every optional callback of every handler is set (receipts Unhandled, the   *)
+(*              muc client's HandleInvite / HandleUserPresence, muc.HandleInvite's func,   *)
+(*              blocklist Block / Unblock / UnblockAll / List, bin Get, xtime TimeFunc,    *)
+(*              the inner handler of history), an IBB listener is installed;               *)
+(*  "zero"      every handler in its default configuration (&receipts.Handler{},           *)
+(*              &muc.Client{}, blocklist.Handler{}, ... : NO optional callback; only the   *)
+(*              callbacks a handler cannot work without are set), an IBB listener is       *)
+(*              installed;                                                                 *)
+(*  "nolisten"  as "listen" without an IBB listener.                                       *)
+Cfgs == {"listen", "zero", "nolisten"}
+(* the configurations in which every table state of every handler can be reached *)
+StateCfgs == {"listen", "zero"}
+
+(* ----- the table states of the stateful handlers -----                                   *)
+(* For IBB the state is (stream table entry, carrier, LOCAL state of the bytestream on     *)
+(* the application's side): "open" / "mopen" = opened by the peer with the iq / message    *)
+(* carrier, nothing written; "open1" / "mopen1" = one block received; "buffered" /         *)
+(* "mbuffered" = the application has written fewer bytes than a block and has not flushed  *)
+(* (they sit in the library's write buffer when the peer's next stanza arrives);           *)
+(* "lclosed" = closed by the application; "closed" = closed by the peer.                   *)
 TableStates(f) ==
-  CASE f = "ibb"  -> {"none", "open", "open1", "buffered", "lclosed", "closed"}
+  CASE f = "ibb"  -> {"none", "open", "open1", "buffered", "mopen", "mopen1", "mbuffered", "lclosed", "closed"}
     [] f = "hist" -> {"none", "tracked", "delivered", "done"}
     [] f = "rcpt" -> {"none", "pending", "acked"}
     [] f = "muc"  -> {"none", "joining", "joined", "leaving", "left"}
     [] OTHER      -> {"none"}
 Stateful == {"ibb", "hist", "rcpt", "muc"}
 
+(* the local state of the extension: bytes the application has written and not flushed *)
+LocalStates == {"clean", "buffered"}
+LocalOf(st) == IF st \in {"buffered", "mbuffered"} THEN "buffered" ELSE "clean"
+Carriers == {"iq", "message"}
+CarrierOf(st) == IF st \in {"mopen", "mopen1", "mbuffered"} THEN "message" ELSE "iq"
+(* what an application action does to it (the run protocol of part 3 tracks it) *)
+LocAfter(act, loc) ==
+  CASE act = "app:ibb_write"  -> "buffered"
+    [] act = "app:ibb_lclose" -> "clean"          \* Close flushes
+    [] OTHER                  -> loc
+
+(* the open request of the peer that asks for the message carrier *)
+OpenMsg == Lab(TargetNamed("ibb.open"), "set", ":attr-other-stanza")
+
 (* setup steps: [items (labels, in order), from (states in which the step makes sense), to] *)
 Step(items, from, to) == [items |-> items, from |-> from, to |-> to]
 SetupSteps(f) ==
   CASE f = "ibb" ->
          {Step(<<Exp("ibb.open")>>, {"none", "closed"}, "open"),
+          Step(<<OpenMsg>>, {"none", "closed"}, "mopen"),
           Step(<<Exp("ibb.data")>>, {"open"}, "open1"),
+          Step(<<Exp("ibb.msgdata")>>, {"mopen"}, "mopen1"),
           Step(<<"app:ibb_write">>, {"open", "open1"}, "buffered"),
-          Step(<<"app:ibb_lclose", "ack/result#absent">>, {"open", "open1"}, "lclosed"),
-          Step(<<Exp("ibb.close")>>, {"open", "open1", "buffered", "lclosed"}, "closed")}
+          Step(<<"app:ibb_write">>, {"mopen", "mopen1"}, "mbuffered"),
+          Step(<<"app:ibb_lclose", "ack/result#absent">>, {"open", "open1", "mopen", "mopen1"}, "lclosed"),
+          Step(<<Exp("ibb.close")>>, {"open", "open1", "buffered", "mopen", "mopen1", "mbuffered", "lclosed"}, "closed")}
     [] f = "hist" ->
          {Step(<<"app:hist_fetch">>, {"none"}, "tracked"),
           Step(<<Exp("hist.result")>>, {"tracked"}, "delivered"),
@@ -420,38 +464,81 @@ SetupsOK(f, n) ==
 
 Depth(f) == (IF f = "hist" \/ f = "muc" THEN 3 ELSE 2) + (IF Quick THEN 0 ELSE 1)
 ReachedStates(f) == {x[2] : x \in SetupsOK(f, Depth(f))}
+NonEmptySetups(f) == {y \in SetupsOK(f, Depth(f)) : y[1] # <<>>}
 
 (* the probes of a family: every shape of every stanza addressed to its handler *)
 Probes(f) == {s.lab : s \in {a \in Alphabet : a.fam = f}}
 
+(* the helper call of the application that uses the same handler state (its table, its    *)
+(* lock) as the peer's stanzas: it must still return after whatever the peer has sent     *)
+FamCall(f) ==
+  CASE f = "ibb"  -> <<"app:ibb_open">>
+    [] f = "hist" -> <<"app:hist_fetch">>
+    [] f = "rcpt" -> <<"app:rcpt_elem">>
+    [] f = "muc"  -> <<"app:muc_join">>
+    [] OTHER      -> <<>>
+(* the trailer after a probe p: nothing, or the same item again and then the helper call  *)
+Again(f, p) == <<p, p>> \o FamCall(f)
+
 SeqSc(cfg, items) == [mode |-> "seq", cfg |-> cfg, items |-> items]
 SingleLabels == Labels \ {x.lab : x \in AckStanzas}
-Singles == {SeqSc("listen", <<l>>) : l \in SingleLabels}
+SingleItems == {a \in Alphabet : a.lab \in SingleLabels}
+Singles == {SeqSc(c, <<l>>) : l \in SingleLabels, c \in StateCfgs}
 NoListen == {SeqSc("nolisten", <<l>>) : l \in {Exp("ibb.open"), Exp("ibb.data"), Exp("ibb.close"), Exp("ibb.msgdata")}}
-Stateful3 == UNION {{SeqSc("listen", x[1] \o <<p>>) : x \in {y \in SetupsOK(f, Depth(f)) : y[1] # <<>>}, p \in Probes(f)} :
+(* every item twice in a row (unmatched both times in the empty table) + the helper call *)
+Repeats == {SeqSc(c, Again(a.fam, a.lab)) : a \in SingleItems, c \in StateCfgs}
+Stateful3 == UNION {{SeqSc(c, x[1] \o <<p>>) : x \in NonEmptySetups(f), p \in Probes(f), c \in StateCfgs} :
                     f \in Stateful}
+(* the same in every table state; the quick tier keeps the families whose handler and     *)
+(* helper share a lock-protected table with few probes (rcpt, ibb)                        *)
+RepFamilies == IF Quick THEN {"rcpt", "ibb"} ELSE Stateful
+StatefulRep == UNION {{SeqSc(c, x[1] \o Again(f, p)) : x \in NonEmptySetups(f), p \in Probes(f), c \in StateCfgs} :
+                      f \in RepFamilies}
 (* after a stanza that a handler survived, the serve loop must still be usable *)
 Pairs == {SeqSc("listen", <<s.lab, Exp("ping")>>) :
             s \in {a \in Alphabet : \E tg \in Targets : a.lab = Lab(tg, tg.types[1], "expected") \/ a.lab = Lab(tg, tg.types[1], ":empty")}}
 Singles2 == {SeqSc("listen", <<s.lab>>) : s \in Alphabet2}
-SeqScenarios == Singles \cup NoListen \cup Stateful3 \cup Pairs
+SeqScenarios == Singles \cup NoListen \cup Repeats \cup Stateful3 \cup StatefulRep \cup Pairs
 
 (* design-level facts about the generator (checked by TLC as ASSUMEs of MCPeerInput)   *)
 C09_EveryTableStateReachable == \A f \in Stateful : TableStates(f) \subseteq ReachedStates(f)
 C09_LabelsUnique == Cardinality(Labels) = Cardinality(Alphabet)
-AppNames == {"app:hist_fetch", "app:rcpt_send", "app:muc_join", "app:muc_leave", "app:ibb_write", "app:ibb_lclose"}
+AppNames == {"app:hist_fetch", "app:rcpt_send", "app:rcpt_elem", "app:muc_join", "app:muc_leave", "app:ibb_write",
+             "app:ibb_lclose", "app:ibb_open"}
 C09_ItemsKnown ==
   LET L == Labels \cup AppNames
-  IN \A sc \in SeqScenarios : \A i \in 1..Len(sc.items) : sc.items[i] \in L
+  IN \A sc \in SeqScenarios : sc.cfg \in Cfgs /\ \A i \in 1..Len(sc.items) : sc.items[i] \in L
 (* every (registered target, shape) pair occurs in a sequence, in every table state of its    *)
-(* handler: the stateful part has exactly one scenario per (non-empty setup, probe) pair      *)
-PairsOf(f) == (Cardinality(SetupsOK(f, Depth(f))) - 1) * Cardinality(Probes(f))
+(* handler and in every configuration: the stateful part has exactly one scenario per         *)
+(* (configuration, non-empty setup, probe) triple                                             *)
+PairsOf(f) == Cardinality(NonEmptySetups(f)) * Cardinality(Probes(f)) * Cardinality(StateCfgs)
 C09_EveryShapeInEveryState ==
   /\ Cardinality(Stateful3) = PairsOf("ibb") + PairsOf("hist") + PairsOf("rcpt") + PairsOf("muc")
   /\ \A f \in Stateful : LET P == Probes(f) IN
         \A tg \in {t \in Targets : t.fam = f} : \A v \in Top(tg.pl) : Lab(tg, tg.types[1], v[1]) \in P
 C09_EveryTargetCovered ==
   LET L == SingleLabels IN \A tg \in Targets : \A i \in 1..Len(tg.types) : Lab(tg, tg.types[i], "expected") \in L
+(* the handler configuration is crossed with the whole grammar: every item alone, and twice   *)
+(* in a row followed by the helper call of its handler, in every configuration                *)
+C09_EveryConfigCrossed ==
+  LET N == Cardinality(SingleLabels) * Cardinality(StateCfgs)
+  IN /\ Cardinality(SingleItems) = Cardinality(SingleLabels)
+     /\ Cardinality(Singles) = N
+     /\ Cardinality(Repeats) = N
+     /\ \A sc \in Repeats : Len(sc.items) >= 2 /\ sc.items[1] = sc.items[2]
+     /\ \A f \in Stateful : FamCall(f) # <<>>
+(* the local state of the extension is crossed with the peer's input: for both carriers a     *)
+(* setup reaches the bytestream with unflushed bytes, every probe of the handler follows it   *)
+(* (close, data, error and every other shape: Stateful3 has one scenario per setup, probe     *)
+(* and configuration, see C09_EveryShapeInEveryState), and the local state the run protocol derives *)
+(* from the application actions of a setup is the one of the table state it reaches           *)
+RECURSIVE LocFold(_, _)
+LocFold(items, loc) == IF items = <<>> THEN loc ELSE LocFold(Tail(items), LocAfter(Head(items), loc))
+C09_LocalStateCrossed ==
+  /\ \A car \in Carriers : \E x \in NonEmptySetups("ibb") : CarrierOf(x[2]) = car /\ LocalOf(x[2]) = "buffered"
+  /\ {Exp("ibb.close"), Exp("ibb.data"), Exp("ibb.msgdata"), "ack/error#expected"} \subseteq Probes("ibb")
+  /\ \A x \in SetupsOK("ibb", Depth("ibb")) :
+        (x[2] # "closed" => LocFold(x[1], "clean") = LocalOf(x[2]))
 
 ---------------------------------------------------------------------------
 (*                         PART 3 - the run protocol                                   *)
@@ -459,52 +546,59 @@ C09_EveryTargetCovered ==
 (* the library's serve loop consumes them one by one.                                  *)
 
 VARIABLES n,          \* number of items of the scenario
+          cfg,        \* the configuration of the handler table of the served session
           pos,        \* items handed to the library so far
           eof,        \* the peer ended the input
           served,     \* "running" | "returned"
           ncalls,     \* application calls / helpers started
           nret,       \* of which returned
+          loc,        \* local state of the extension: written, unflushed bytes of the application
           cancelled   \* the application cancelled the contexts of its pending calls
-vars == <<n, pos, eof, served, ncalls, nret, cancelled>>
+vars == <<n, cfg, pos, eof, served, ncalls, nret, loc, cancelled>>
 
-MaxItems == 4
-Init == /\ n \in 0..MaxItems /\ pos = 0 /\ eof = FALSE /\ served = "running"
-        /\ ncalls = 0 /\ nret = 0 /\ cancelled = FALSE
+MaxItems == 7
+Acts == AppNames \cup {"helper"}
+Init == /\ n \in 0..MaxItems /\ cfg \in Cfgs /\ pos = 0 /\ eof = FALSE /\ served = "running"
+        /\ ncalls = 0 /\ nret = 0 /\ loc = "clean" /\ cancelled = FALSE
 
 (* environment: the peer sends the next stanza once the library asks for input *)
 Feed(i, cut) ==
   /\ served = "running" /\ ~eof /\ i = pos + 1 /\ i <= n
   /\ pos' = (IF cut THEN n ELSE i)
-  /\ UNCHANGED <<n, eof, served, ncalls, nret, cancelled>>
-(* environment: the application starts a call (item i of a sequence, or the helper i = 0) *)
-AppStart(i) ==
-  /\ served = "running" /\ ~eof
-  /\ \/ i = pos + 1 /\ i <= n /\ pos' = i
-     \/ i = 0 /\ ncalls = 0 /\ pos' = pos
+  /\ UNCHANGED <<n, cfg, eof, served, ncalls, nret, loc, cancelled>>
+(* environment: the application starts a call (item i of a sequence, or the helper i = 0); *)
+(* what it leaves in the extension's local state is part of the state the peer's next      *)
+(* stanza meets                                                                            *)
+AppStart(i, act) ==
+  /\ served = "running" /\ ~eof /\ act \in Acts
+  /\ \/ i = pos + 1 /\ i <= n /\ pos' = i /\ act # "helper"
+     \/ i = 0 /\ ncalls = 0 /\ pos' = pos /\ act = "helper"
   /\ ncalls' = ncalls + 1
-  /\ UNCHANGED <<n, eof, served, nret, cancelled>>
+  /\ loc' = LocAfter(act, loc)
+  /\ UNCHANGED <<n, cfg, eof, served, nret, cancelled>>
 (* environment: the peer ends the stream (after its last item, or earlier: a cut)      *)
 Eof == /\ served = "running" /\ ~eof /\ eof' = TRUE
-       /\ UNCHANGED <<n, pos, served, ncalls, nret, cancelled>>
+       /\ UNCHANGED <<n, cfg, pos, served, ncalls, nret, loc, cancelled>>
 (* library: Serve returns - at any time with an error (the property allows it to give  *)
-(* up on any input), and it MUST return once the input ended                           *)
+(* up on any input), and it MUST return once the input ended - in every configuration  *)
+(* of the handler table and whatever the local state of the extension is               *)
 ServeReturn(out) ==
   /\ served = "running" /\ out \in {"nil", "error"}
   /\ served' = "returned"
-  /\ UNCHANGED <<n, pos, eof, ncalls, nret, cancelled>>
+  /\ UNCHANGED <<n, cfg, pos, eof, ncalls, nret, loc, cancelled>>
 (* environment: with the session gone the application cancels what is still pending   *)
 Cancel == /\ served = "returned" /\ ~cancelled /\ cancelled' = TRUE
-          /\ UNCHANGED <<n, pos, eof, served, ncalls, nret>>
+          /\ UNCHANGED <<n, cfg, pos, eof, served, ncalls, nret, loc>>
 (* library: a call returns a value or an error - at any time, and it MUST return once  *)
 (* its context is cancelled                                                            *)
 CallReturn(k, out) ==
   /\ k = nret + 1 /\ k <= ncalls /\ out \in {"value", "error"}
   /\ nret' = k
-  /\ UNCHANGED <<n, pos, eof, served, ncalls, cancelled>>
+  /\ UNCHANGED <<n, cfg, pos, eof, served, ncalls, loc, cancelled>>
 Quiescent == served = "returned" /\ nret = ncalls
 
 Next == \/ \E i \in 0..MaxItems : \E cut \in BOOLEAN : Feed(i, cut)
-        \/ \E i \in 0..MaxItems : AppStart(i)
+        \/ \E i \in 0..MaxItems : \E a \in Acts : AppStart(i, a)
         \/ Eof \/ Cancel
         \/ \E o \in {"nil", "error"} : ServeReturn(o)
         \/ \E k \in 1..(MaxItems + 1) : \E o \in {"value", "error"} : CallReturn(k, o)
@@ -517,8 +611,8 @@ EnvEnds == Eof \/ Cancel
 
 Spec == Init /\ [][Next]_vars /\ WF_vars(LibServe) /\ WF_vars(LibCalls) /\ WF_vars(EnvEnds)
 
-TypeOK == /\ n \in 0..MaxItems /\ pos \in 0..n /\ eof \in BOOLEAN /\ served \in {"running", "returned"}
-          /\ ncalls \in 0..(MaxItems + 1) /\ nret \in 0..ncalls /\ cancelled \in BOOLEAN
+TypeOK == /\ n \in 0..MaxItems /\ cfg \in Cfgs /\ pos \in 0..n /\ eof \in BOOLEAN /\ served \in {"running", "returned"}
+          /\ ncalls \in 0..(MaxItems + 1) /\ nret \in 0..ncalls /\ loc \in LocalStates /\ cancelled \in BOOLEAN
 (* nothing is handed to a serve loop that has returned; a cancelled application starts nothing *)
 C09_NoFeedAfterReturn == [][served = "returned" => pos' = pos /\ ncalls' = ncalls]_vars
 C09_Terminates == <>[]Quiescent
